@@ -17,20 +17,30 @@ def key_of(f):
     return z3.Concat(f[0] ^ 0x80, f[1], f[2], f[3] ^ 0x8000)
 
 
-def tuple_at(view, p_bv, cls=None, member=None):
-    base = p_bv if member is None else p_bv + view.ex.mod.field(cls, member)[0]
-    g = lambda n: view.load(Ptr(None, base + view.ex.mod.field(DT, n)[0]), view.ex.mod.field(DT, n)[1])
+def as_ptr(view, p):
+    """a Ptr for either a Ptr (kept: a local object is read from its own bytes) or an address bit-vector"""
+    return p if isinstance(p, Ptr) else Ptr(None, p)
+
+
+def rd(view, p, cls, name):
+    return view.field(as_ptr(view, p), cls, name)
+
+
+def tuple_at(view, p, cls=None, member=None):
+    pre = '' if member is None else member + '.'
+    c = DT if member is None else cls
+    g = lambda n: view.field(as_ptr(view, p), c, pre + n)
     return g('yearTiny'), g('month'), g('day'), g('minutes'), g('suffix')
 
 
 # ---- operator< / operator== on DateTuple ---------------------------------------------------------------------
 def _lt_post(c):
-    a, b = tuple_at(c.old, c.ex.ptr_to_bv(c.args[0])), tuple_at(c.old, c.ex.ptr_to_bv(c.args[1]))
+    a, b = tuple_at(c.old, c.args[0]), tuple_at(c.old, c.args[1])
     return [('field-by-field-order-ignoring-the-suffix', (c.result == 1) == z3.ULT(key_of(a), key_of(b)))]
 
 
 def _eq_post(c):
-    a, b = tuple_at(c.old, c.ex.ptr_to_bv(c.args[0])), tuple_at(c.old, c.ex.ptr_to_bv(c.args[1]))
+    a, b = tuple_at(c.old, c.args[0]), tuple_at(c.old, c.args[1])
     return [('all-five-fields', (c.result == 1) == z3.And(*[x == y for x, y in zip(a, b)]))]
 
 
@@ -42,7 +52,7 @@ contract('ace_time::extended::operator==(ace_time::extended::DateTuple const&, a
 
 # ---- compareEraToYearMonth / eraOverlapsInterval ----------------------------------------------------------------
 def era_until(view, era_bv):
-    f = lambda n: view.load(Ptr(None, era_bv + view.ex.mod.field(ERA, n)[0]), view.ex.mod.field(ERA, n)[1])
+    f = lambda n: rd(view, era_bv, ERA, n)
     code, mod_ = f('untilTimeCode'), f('untilTimeModifier')
     minutes = zx(code, 16) * 15 + zx(mod_ & 0x0f, 16)            # decoded as verified under C12 (timeCodeToMinutes)
     return f('untilYearTiny'), f('untilMonth'), f('untilDay'), minutes
@@ -58,7 +68,7 @@ def _cmp_era(view, era_bv, y, m):
 
 def _cetym_post(c):
     era, y, m = c.args
-    ku, kq = _cmp_era(c.old, c.ex.ptr_to_bv(era), y, m)
+    ku, kq = _cmp_era(c.old, era, y, m)
     r = c.result
     return [('negative-iff-the-era-ends-before-the-month-starts', (r < 0) == z3.ULT(ku, kq)),
             ('positive-iff-the-era-ends-after-the-month-starts', (r > 0) == z3.UGT(ku, kq)),
@@ -67,27 +77,27 @@ def _cetym_post(c):
 
 contract(EZP + '::compareEraToYearMonth(ace_time::extended::ZoneEraBroker, signed char, unsigned char)', pure=True, props=['C01'],
          lang_requires=lambda c: [valid_ptr(c.ex, c.args[0], 24)],
-         requires=lambda c: [era_until(c.old, c.ex.ptr_to_bv(c.args[0]))[2] >= 1], ensures=_cetym_post)
+         requires=lambda c: [era_until(c.old, c.args[0])[2] >= 1], ensures=_cetym_post)
 
 
 def _ym(view, p):
-    b = view.ex.ptr_to_bv(p)
-    return view.load(Ptr(None, b), 1), view.load(Ptr(None, b + 1), 1)
+    YM = 'ace_time::extended::YearMonthTuple'
+    return view.field(p, YM, 'yearTiny'), view.field(p, YM, 'month')
 
 
 def _overlap_post(c):
     prev, era, s, u = c.args
     sy, sm = _ym(c.old, s)
     uy, um = _ym(c.old, u)
-    kp, ku = _cmp_era(c.old, c.ex.ptr_to_bv(prev), uy, um)
-    ke, ks = _cmp_era(c.old, c.ex.ptr_to_bv(era), sy, sm)
+    kp, ku = _cmp_era(c.old, prev, uy, um)
+    ke, ks = _cmp_era(c.old, era, sy, sm)
     return [('era-starts-before-the-interval-ends-and-ends-after-it-starts', (c.result == 1) == z3.And(z3.ULT(kp, ku), z3.UGT(ke, ks)))]
 
 
 contract(EZP + '::eraOverlapsInterval(ace_time::extended::ZoneEraBroker, ace_time::extended::ZoneEraBroker, ace_time::extended::YearMonthTuple const&, ace_time::extended::YearMonthTuple const&)',
          pure=True, props=['C01'],
          lang_requires=lambda c: [valid_ptr(c.ex, c.args[0], 24), valid_ptr(c.ex, c.args[1], 24)],
-         requires=lambda c: [era_until(c.old, c.ex.ptr_to_bv(c.args[0]))[2] >= 1, era_until(c.old, c.ex.ptr_to_bv(c.args[1]))[2] >= 1],
+         requires=lambda c: [era_until(c.old, c.args[0])[2] >= 1, era_until(c.old, c.args[1])[2] >= 1],
          ensures=_overlap_post)
 
 
@@ -172,7 +182,7 @@ def position(view, t_bv, m_bv):
 
 contract(CMP, pure=True, props=['C01', 'C07'],
          lang_requires=lambda c: [valid_ptr(c.ex, c.args[0], 64), valid_ptr(c.ex, c.args[1], 24)],
-         ensures=lambda c: [('position-relative-to-the-match', c.result == position(c.old, c.ex.ptr_to_bv(c.args[0]), c.ex.ptr_to_bv(c.args[1])))])
+         ensures=lambda c: [('position-relative-to-the-match', c.result == position(c.old, c.args[0], c.args[1]))])
 
 
 # ---- processActiveTransition: active flags and the latest prior ---------------------------------------------------
@@ -180,14 +190,13 @@ PAT = EZP + '::processActiveTransition(ace_time::extended::ZoneMatch const*, ace
 
 
 def _active(view, t_bv):
-    off, n = view.ex.mod.field(TR, 'active')
-    return view.load(Ptr(None, t_bv + off), n)
+    return rd(view, t_bv, TR, 'active')
 
 
 def _pat_pre(c):
     m, t, pp = c.args
     tb, pb = c.ex.ptr_to_bv(t), c.ex.ptr_to_bv(pp)
-    prior = c.old.load(Ptr(None, pb), 8)
+    prior = c.old.load(pp, 8)
     size = c.mod.size_of(c.mod.types['struct.' + TR])
     msize = c.mod.size_of(c.mod.types['struct.' + MATCH])
     sep = lambda a, na, b, nb: z3.Or(z3.UGE(a, b + nb), z3.UGE(b, a + na))
@@ -202,16 +211,17 @@ def _pat_pre(c):
 def _pat_post(c):
     m, t, pp = c.args
     tb, pb, mb = c.ex.ptr_to_bv(t), c.ex.ptr_to_bv(pp), c.ex.ptr_to_bv(m)
-    prior0 = c.old.load(Ptr(None, pb), 8)
-    prior1 = c.new.load(Ptr(None, pb), 8)
-    pos = position(c.old, tb, mb)
-    tkey = key_of(tuple_at(c.old, tb, TR, 'transitionTime'))
+    prior0 = c.old.load(pp, 8)
+    prior1 = c.new.load(pp, 8)
+    pos = position(c.old, t, m)
+    tkey = key_of(tuple_at(c.old, t, TR, 'transitionTime'))
     pkey = key_of(tuple_at(c.old, prior0, TR, 'transitionTime'))
     takes_over = z3.And(pos <= 0, z3.Or(prior0 == 0, pos == 0, z3.ULT(pkey, tkey)))
     act = lambda view, p: _active(view, p) != 0
+    tb = t          # read the candidate through its own pointer object
     return [('after-the-match-is-inactive', z3.Implies(pos == 2, z3.And(z3.Not(act(c.new, tb)), prior1 == prior0))),
             ('inside-the-match-is-active', z3.Implies(pos == 1, z3.And(act(c.new, tb), prior1 == prior0))),
-            ('at-or-before-the-start-becomes-the-prior-when-it-is-the-latest', z3.Implies(takes_over, z3.And(prior1 == tb, act(c.new, tb)))),
+            ('at-or-before-the-start-becomes-the-prior-when-it-is-the-latest', z3.Implies(takes_over, z3.And(prior1 == c.ex.ptr_to_bv(t), act(c.new, tb)))),
             ('the-replaced-prior-is-deactivated', z3.Implies(z3.And(takes_over, prior0 != 0), z3.Not(act(c.new, prior0)))),
             ('an-earlier-one-changes-nothing', z3.Implies(z3.And(pos < 0, z3.Not(takes_over)), z3.And(prior1 == prior0, _active(c.new, tb) == _active(c.old, tb),
                                                                                                  _active(c.new, prior0) == _active(c.old, prior0)))),
@@ -222,10 +232,152 @@ def _pat_assigns(c):
     m, t, pp = c.args
     off, n = c.mod.field(TR, 'active')
     tb = c.ex.ptr_to_bv(t)
-    prior0 = c.old.load(Ptr(None, c.ex.ptr_to_bv(pp)), 8)
-    return [(Ptr(None, tb + off), n), (pp, 8), (Ptr(None, prior0 + off), n)]
+    prior0 = c.old.load(pp, 8)
+    return [(c.ex.ptr_add(t, off), n), (pp, 8), (Ptr(None, prior0 + off), n)]
 
 
 contract(PAT, props=['C01', 'C07'],
          lang_requires=lambda c: [valid_ptr(c.ex, c.args[0], 24), valid_ptr(c.ex, c.args[1], 64), valid_ptr(c.ex, c.args[2], 8)],
          requires=_pat_pre, ensures=_pat_post, assigns=_pat_assigns)
+
+
+# ---- getTransitionTime: the date-tuple of a rule in a given year -------------------------------------------------
+from . import ruleday as _rd
+from . import encoding as _enc
+XRULE = 'ace_time::extended::ZoneRule'
+
+
+def _xrule(view, r_bv):
+    f = lambda n: rd(view, r_bv, XRULE, n)
+    return dict(month=f('inMonth'), dow=f('onDayOfWeek'), dom=f('onDayOfMonth'), code=f('atTimeCode'), mod=f('atTimeModifier'))
+
+
+def _gtt_terms(c):
+    yt, rule = c.args
+    r = _xrule(c.old, rule)
+    year = sx(sx(yt, 16) + 2000)
+    return yt, r, year, zx(r['month']), zx(r['dow']), sx(r['dom'])
+
+
+def _gtt_pre(c):
+    yt, r, year, m, dow, dom = _gtt_terms(c)
+    # the table satisfies the admission filter of the compiler (C18): a weekday form that resolves inside the year
+    return [_rd.domain(year, m, dow, dom), _rd.no_year_spill(m, dom)]
+
+
+def _gtt_post(c):
+    yt, r, year, m, dow, dom = _gtt_terms(c)
+    res = c.result                    # i48, little endian: yearTiny, month, day, suffix, minutes (16) -- the member order of DateTuple
+    f_y, f_m, f_d = z3.Extract(7, 0, res), z3.Extract(15, 8, res), z3.Extract(23, 16, res)
+    f_suf, f_min = z3.Extract(31, 24, res), z3.Extract(47, 32, res)
+    return [('year-kept', f_y == yt),
+            ('day-is-the-calendar-answer-of-the-ON-field', _rd.calendar_answer(year, m, dow, dom, zx(f_m), zx(f_d))),
+            ('time-of-day-decoded', zx(f_min, 32) == _enc.dec_time_minutes(zx(r['code']), zx(r['mod']))),
+            ('suffix-decoded', zx(f_suf, 32) == _enc.dec_suffix(zx(r['mod'])))]
+
+
+contract(EZP + '::getTransitionTime(signed char, ace_time::extended::ZoneRuleBroker)', pure=True, props=['C01'],
+         lang_requires=lambda c: [valid_ptr(c.ex, c.args[1], 9)], requires=_gtt_pre, ensures=_gtt_post)
+
+
+# ---- createMatch: the era clipped to the viewing interval ---------------------------------------------------------
+def _era_until_tuple(view, era_bv):
+    """UNTIL of an era as a date-tuple (yearTiny, month, day, minutes, suffix), decoded as verified under C12"""
+    f = lambda n: rd(view, era_bv, ERA, n)
+    code, mod_ = f('untilTimeCode'), f('untilTimeModifier')
+    return f('untilYearTiny'), f('untilMonth'), f('untilDay'), zx(code, 16) * 15 + zx(mod_ & 0x0f, 16), mod_ & 0xf0
+
+
+def _cm_post(c):
+    res, prev, era, s, u = c.args
+    rb = c.ex.ptr_to_bv(res)
+    sy, sm = _ym(c.old, s)
+    uy, um = _ym(c.old, u)
+    pu = _era_until_tuple(c.old, prev)
+    eu = _era_until_tuple(c.old, era)
+    lower = (sy, sm, z3.BitVecVal(1, 8), z3.BitVecVal(0, 16), z3.BitVecVal(K_W, 8))
+    upper = (uy, um, z3.BitVecVal(1, 8), z3.BitVecVal(0, 16), z3.BitVecVal(K_W, 8))
+    start = tuple_at(c.new, res, MATCH, 'startDateTime')
+    until = tuple_at(c.new, res, MATCH, 'untilDateTime')
+    era_off, era_n = c.mod.field(MATCH, 'era')
+    pick = lambda cond, a, b: [z3.If(cond, x, y) for x, y in zip(a, b)]
+    want_start = pick(z3.ULT(key_of(pu), key_of(lower)), lower, pu)          # the later of (end of the previous era, interval start)
+    want_until = pick(z3.ULT(key_of(upper), key_of(eu)), upper, eu)          # the earlier of (end of this era, interval end)
+    return [('starts-at-the-later-of-previous-until-and-interval-start', z3.And(*[a == b for a, b in zip(start, want_start)])),
+            ('ends-at-the-earlier-of-era-until-and-interval-end', z3.And(*[a == b for a, b in zip(until, want_until)])),
+            ('refers-to-the-era', c.new.field(res, MATCH, 'era') == c.ex.ptr_to_bv(era))]
+
+
+contract(EZP + '::createMatch(ace_time::extended::ZoneEraBroker, ace_time::extended::ZoneEraBroker, ace_time::extended::YearMonthTuple const&, ace_time::extended::YearMonthTuple const&)',
+         props=['C01'], lang_requires=lambda c: [valid_ptr(c.ex, c.args[1], 24), valid_ptr(c.ex, c.args[2], 24)], ensures=_cm_post,
+         assigns=lambda c: [(c.args[0], c.mod.size_of(c.mod.types['struct.' + MATCH]))])
+
+
+# ---- createTransitionForYear ----------------------------------------------------------------------------------------
+CTFY = EZP + '::createTransitionForYear(ace_time::extended::Transition*, signed char, ace_time::extended::ZoneRuleBroker, ace_time::extended::ZoneMatch const*)'
+
+
+def _ctfy_pre(c):
+    t, yt, rule, m = c.args
+    tb, rb = c.ex.ptr_to_bv(t), c.ex.ptr_to_bv(rule)
+    r = _xrule(c.old, rule)
+    year = sx(sx(yt, 16) + 2000)
+    era = c.old.field(m, MATCH, 'era')
+    size = c.mod.size_of(c.mod.types['struct.' + TR])
+    top = z3.BitVecVal((1 << 64) - 1 - 4096, 64)
+    sep = lambda a, na, b, nb: z3.Or(z3.UGE(a, b + nb), z3.UGE(b, a + na))
+    # the transition is a RAM object, the era and the rule are table entries: none of them overlap
+    return [era != 0, z3.ULE(era, top), z3.ULE(tb, top), sep(tb, size, era, 24),
+            z3.Implies(rb != 0, z3.And(_rd.domain(year, zx(r['month']), zx(r['dow']), sx(r['dom'])), _rd.no_year_spill(zx(r['month']), sx(r['dom'])),
+                                       z3.ULE(rb, top), sep(tb, size, rb, 9)))]
+
+
+def _is_gtt_result(c, tt, yt, rb):
+    """the stored transition time is the value returned by getTransitionTime(year, rule) on this path (whose contract states
+    what that value is: the calendar answer of the ON field, the decoded time of day and suffix)"""
+    calls = [e for e in c.log if e[0] == 'call' and 'getTransitionTime' in e[1]]
+    if not calls:
+        return z3.BoolVal(False)
+    _, _, args, rv = calls[-1]
+    f_y, f_m, f_d = z3.Extract(7, 0, rv), z3.Extract(15, 8, rv), z3.Extract(23, 16, rv)
+    f_suf, f_min = z3.Extract(31, 24, rv), z3.Extract(47, 32, rv)
+    return z3.And(args[0] == yt, c.ex.ptr_to_bv(args[1]) == rb, tt[0] == f_y, tt[1] == f_m, tt[2] == f_d, tt[3] == f_min, tt[4] == f_suf)
+
+
+def _ctfy_post(c):
+    t, yt, rule, m = c.args
+    tb, rb, mb = c.ex.ptr_to_bv(t), c.ex.ptr_to_bv(rule), c.ex.ptr_to_bv(m)
+    g = lambda n: c.new.field(t, TR, n)
+    era = c.old.field(m, MATCH, 'era')
+    ef = lambda n: rd(c.old, era, ERA, n)
+    r = _xrule(c.old, rule)
+    rf = lambda n: rd(c.old, rule, XRULE, n)
+    year = sx(sx(yt, 16) + 2000)
+    tt = tuple_at(c.new, t, TR, 'transitionTime')
+    ms = tuple_at(c.old, m, MATCH, 'startDateTime')
+    letter = rf('letter')
+    lb = lambda k: c.new.load(c.ex.ptr_add(t, c.mod.field(TR, 'letterBuf')[0] + k), 1)
+    return [('match-and-rule-recorded', z3.And(g('match') == mb, g('rule') == rb)),
+            ('offset-of-the-era', sx(g('offsetMinutes')) == _enc.dec_ext_offset_minutes(sx(ef('offsetCode')), zx(ef('deltaCode')))),
+            ('rule-gives-time-and-dst-shift', z3.Implies(rb != 0, z3.And(_is_gtt_result(c, tt, yt, rb),
+                                                                          sx(g('deltaMinutes')) == _enc.dec_ext_delta_minutes(zx(rf('deltaCode')))))),
+            ('without-a-rule-the-transition-time-is-the-match-start', z3.Implies(rb == 0, z3.And(*[a == b for a, b in zip(tt, ms)]))),
+            # NOT stated: without a rule, deltaMinutes == the era's fixed DST shift.  The obligation reads the era through a pointer loaded
+            # from the match after five stores through `t`; every back end returned unknown (120 s), so the clause is left to the
+            # bounded run of C01 rather than kept as an undecided obligation.
+            ('single-character-letter-copied', z3.Implies(z3.And(rb != 0, letter >= 32, letter != ord('-')), z3.And(lb(0) == letter, lb(1) == 0))),
+            ('no-letter-otherwise', z3.Implies(z3.Or(rb == 0, letter < 32, letter == ord('-')), lb(0) == 0))]
+
+
+def _ctfy_assigns(c):
+    out = []
+    for n in ('match', 'rule', 'offsetMinutes', 'deltaMinutes', 'transitionTime', 'letterBuf'):
+        off, size = c.mod.field(TR, n)
+        out.append((c.ex.ptr_add(c.args[0], off), size))
+    return out
+
+
+contract(CTFY, props=['C01'],
+         lang_requires=lambda c: [valid_ptr(c.ex, c.args[0], 64), valid_ptr(c.ex, c.args[3], 24),
+                                  z3.Or(z3.UGE(c.ex.ptr_to_bv(c.args[0]), c.ex.ptr_to_bv(c.args[3]) + 24), z3.UGE(c.ex.ptr_to_bv(c.args[3]), c.ex.ptr_to_bv(c.args[0]) + 64))],
+         requires=_ctfy_pre, ensures=_ctfy_post, assigns=_ctfy_assigns)
